@@ -100,7 +100,9 @@ CLAIMS = {
     "C04": {
         "text": "Machine-checked Lean theorems generic in the cost type: unigram_walk (structure of every encoding, all fallbacks, no cost "
                 "laws) and viterbi_optimal (for every vocabulary, scores of either sign, every segmentable piece: the result is a "
-                "segmentation of minimal cost - no bound on costs). The code had to be repaired for this to be true (F13, restart value "
+                "segmentation of minimal cost - no bound on costs) and unigram_stretch_optimal (also when the piece cannot be "
+                "segmented, every run of entries before, between and after the holes is a cheapest segmentation of the text it "
+                "covers, measured from the value the run starts with). The code had to be repaired for this to be true (F13, restart value "
                 "1e6; fix commit 8176aef); the pre-repair statement viterbi_optimal_partial and its counterexample are kept. Model tied to "
                 "src/encoder/unigram.rs by differential runs judged by an independent dynamic program.",
         "design_ref": "DESIGN.md §6 C04, §7 F13, §10.4",
@@ -158,7 +160,8 @@ CLAIMS = {
     "C06": {
         "text": "Machine-checked Lean theorems: the three encoders follow the fallback chain specification for every fallback list "
                 "(head-first, Bytes continues with the tail on exactly the unencodable segment in byte order, Unknown only if defined, Skip, "
-                "error with the bytes, no partial result) and never panic. Tied to the encoders by differential runs on vocabularies with holes.",
+                "error with the bytes, no partial result) and never panic; for Unigram the encodable neighbours of a hole are unaffected "
+                "(unigram_neighbours_unaffected: each run of entries around the holes is a cheapest segmentation of its own text). Tied to the encoders by differential runs on vocabularies with holes.",
         "design_ref": "DESIGN.md §5, §6 C06",
         "note": "Trusted: Lean kernel + 3 standard axioms; harness generators. Two genuine defects found and repaired (F5, F7).",
         "technique": "Lean 4 proof over executable model + differential correspondence with the Rust implementation",
